@@ -18,6 +18,14 @@ Near-miss stream 2 (harness/c02_near.py, session 6): about 110 further construct
 Refusal tie (coq/Script/Refuse.v, C02_defective_never_accepted): on model-expressible near misses the class and the
 source line of the statement at the path computed by the verified detector are compared in Coq with the real exception.
 
+Round 3 (harness/c02_domains.py): (A) one function using two versions of the standard opset, both orders, default by first use /
+by default_opset=, operators whose calling convention changed in between: refused with a located exception or valid protos;
+(B) main -> script functions of >= 3 custom domains reached only through other script functions (chains, diamonds; calls inside
+if / loop bodies): `model_imports_ok` (coq/Graph/ModelImports.v; C02_model_imports_declarative: every domain used by the main graph
+or by the body of ANY model-local function is imported by the model, every function imports what its body uses) is evaluated in
+Coq on every real ModelProto of every stream, with the functions and their imports (graphlit.model_funs_lit); onnxruntime must
+load these models and compute the numpy reading.
+
 Name-resolution near misses (c01_gen.name_near_miss): a variable assigned on only one path (one branch of an if, the body
 of a loop that may run zero times) and used afterwards, whose name also denotes a module-level global / closure variable /
 module-level script function / converter-generated value name.  In Python the name is local to the function and unbound on
@@ -66,6 +74,9 @@ REFUTES = {
                  "across the graph and its nested subgraphs",
     "no_input_returned": "by C02_no_input_returned_false some graph input is listed as a graph output",
     "imports_ok": "by C02_imports_false a domain is imported twice or a node (at some nesting depth) uses a domain that is not imported",
+    "model_imports_ok": "by C02_model_imports_false the model imports a domain twice, or a node of the main graph uses a domain the model does not "
+                        "import, or a model-local function imports a domain twice or its body uses a domain that the function or the MODEL does "
+                        "not import (the functions are part of the model: C02_model_imports_declarative)",
 }
 
 
@@ -80,8 +91,11 @@ class Collected:
 
     def __init__(self):
         self.items = []   # (graph literal, imports literal, meta)
+        self.funs = {}    # index in items -> Coq `list mfun` (ModelProto only: imports + body of every model-local function)
 
-    def add(self, glit, ilit, meta):
+    def add(self, glit, ilit, meta, funs=None):
+        if funs is not None:
+            self.funs[len(self.items)] = funs
         self.items.append((glit, ilit, meta))
 
 
@@ -156,8 +170,10 @@ def observe_accepted(ctx, mod, prog, source, stream, kind, coll, stats):
                           "ModelProto main graph still refers to attribute parameters (ref_attr_name) of the function it was made from", replay)
         if not c01_run.single_version_imports(mp.opset_import):
             ctx.violation("C02:model:domain-imported-twice", "ModelProto imports a domain more than once", replay)
+        from harness import c02_domains
         coll.add(graphlit.graph_lit(mp.graph), graphlit.imports_lit(mp.opset_import),
-                 dict(replay, proto="model", nodes=len(mp.graph.node), hints=dict(hints, imports="other")))
+                 dict(replay, proto="model", nodes=len(mp.graph.node), hints=dict(hints, imports="other", model_imports=c02_domains.model_imports_hint(mp))),
+                 funs=graphlit.model_funs_lit(mp))
         for lf in mp.functions:
             coll.add(graphlit.function_lit(lf), graphlit.imports_lit(lf.opset_import),
                      dict(replay, proto="model-local-function", function=lf.name, nodes=len(lf.node), hints={"wf": "other", "input_returned": "other", "imports": "other"}))
@@ -178,7 +194,8 @@ def model_has_attr_refs(mp):
 
 
 def eval_checkers(ctx, coll, stats):
-    """Evaluate wf_graphb / no_input_returned / imports_ok in Coq on everything collected."""
+    """Evaluate wf_graphb / no_input_returned / imports_ok in Coq on everything collected, and model_imports_ok (main graph +
+    the bodies and imports of all model-local functions, Graph/ModelImports.v) on every ModelProto."""
     items = coll.items
     B = 150
     bodies, slices = [], []
@@ -186,19 +203,22 @@ def eval_checkers(ctx, coll, stats):
         chunk = items[lo:lo + B]
         defs = "\n".join(f"Definition g{i} : graph := {g}." for i, (g, _im, _m) in enumerate(chunk))
         lst = clist([f"(g{i}, {im})" for i, (_g, im, _m) in enumerate(chunk)])
+        mlst = clist([f"({i}, g{i}, {chunk[i][1]}, {coll.funs[lo + i]})" for i in range(len(chunk)) if (lo + i) in coll.funs])
         body = (defs + f"\nDefinition cases : list (graph * list string) := {lst}.\n"
                 "Fixpoint failing (chk : graph * list string -> bool) (i : nat) (l : list (graph * list string)) : list nat :=\n"
                 "  match l with [] => [] | c :: t => (if chk c then [] else [i]) ++ failing chk (S i) t end.\n"
                 "Eval vm_compute in (failing (fun c => wf_graphb (fst c)) 0 cases).\n"
                 "Eval vm_compute in (failing (fun c => no_input_returned (fst c)) 0 cases).\n"
-                "Eval vm_compute in (failing (fun c => imports_ok (snd c) (fst c)) 0 cases).\n")
+                "Eval vm_compute in (failing (fun c => imports_ok (snd c) (fst c)) 0 cases).\n"
+                f"Definition mcases : list (nat * graph * list string * list mfun) := {mlst}.\n"
+                "Eval vm_compute in (flat_map (fun c => let '(i, g, im, fs) := c in if model_imports_ok im g fs then [] else [i]) mcases).\n")
         bodies.append(body)
         slices.append(lo)
-    results = c01_run.coq_eval_par(ctx, graphlit.REQUIRES, bodies, "c02_wf")
-    names = ["wf_graphb", "no_input_returned", "imports_ok"]
+    results = c01_run.coq_eval_par(ctx, graphlit.REQUIRES + ["OV.Graph.ModelImports"], bodies, "c02_wf")
+    names = ["wf_graphb", "no_input_returned", "imports_ok", "model_imports_ok"]
     bad_total = collections.Counter()
     for lo, (ok, vals, raw) in zip(slices, results):
-        if not ok or len(vals) != 3:
+        if not ok or len(vals) != 4:
             ctx.tie_broken("checker", "verified-checkers-evaluation", raw[-1500:])
             continue
         for name, v in zip(names, vals):
@@ -213,6 +233,8 @@ def eval_checkers(ctx, coll, stats):
                     key += ":" + meta["hints"]["input_returned"]
                 elif name == "imports_ok":
                     key += ":" + meta["hints"]["imports"]
+                elif name == "model_imports_ok":
+                    key += ":" + meta["hints"].get("model_imports", "other")
                 if meta["proto"] == "model-local-function":
                     continue   # the same FunctionProto is judged once, as the function under test of its own program
                 ctx.violation(key,
@@ -220,6 +242,9 @@ def eval_checkers(ctx, coll, stats):
                               {k: meta[k] for k in ("stream", "near_miss", "function", "source", "proto")})
     stats["checker_false"] = sum(bad_total.values())
     ctx.obligation(f"verified checkers wf_graphb / no_input_returned / imports_ok evaluated in Coq on {len(items)} real protos", bool(results) or not items)
+    n_fun = sum(1 for i in coll.funs if coll.funs[i] != "[]")
+    ctx.obligation(f"verified checker model_imports_ok (main graph + bodies and imports of all model-local functions; C02_model_imports_declarative) "
+                   f"evaluated in Coq on {len(coll.funs)} real ModelProtos ({n_fun} with model-local functions)", (bool(results) or not items) and n_fun > 0)
     return bad_total
 
 
@@ -611,6 +636,10 @@ def run(ctx):
         from harness import c02_names
         names_rng = _random.Random(near_rng.getrandbits(64))    # own generator: the streams above are unchanged
         c02_names.stream(ctx, wd, names_rng, 30 if quick else 200, 3, coll, model_side, stats, observe_accepted, crash_site)
+        from harness import c02_domains
+        dom_rng = _random.Random(names_rng.getrandbits(64))     # own generator: the streams above are unchanged
+        c02_domains.mixed_opset_stream(ctx, wd, dom_rng, coll, stats)
+        c02_domains.domain_chain_stream(ctx, wd, dom_rng, 20 if quick else 150, coll, stats)
         bad = eval_checkers(ctx, coll, stats)
         model_side_tie(ctx, model_side, stats)
     finally:
